@@ -304,7 +304,11 @@ fn part_cancellation(ctx: &Ctx, info: &LangInfo, big: &[Vec<u8>], other_doc: &[u
             match t {
                 None => res.violation("resume-never-finishes", format!("plan {:?}", plan), case_json("cancel", &info.name, d, json!({"cancel_at": plan}))),
                 Some(t) => {
-                    if let Some(m) = same(&XTree::build(&t), &refx) { res.violation("cancel-resume-changes-tree", format!("cancel at {:?}: {}", plan, m), case_json("cancel", &info.name, d, json!({"cancel_at": plan}))); }
+                    let tx = XTree::build(&t);
+                    // Known finding: with several stack versions alive (error recovery) a resumed parse re-enters the version loop
+                    // at version 0, so the versions advance in another order than in an uninterrupted parse and the recovery can
+                    // come out differently. Only when both trees report the error.
+                    if let Some(m) = same(&tx, &refx) { res.violation(if tx.root_has_error() && refx.root_has_error() { "cancel-resume-changes-error-recovery-shape" } else { "cancel-resume-changes-tree" }, format!("cancel at {:?}: {}", plan, m), case_json("cancel", &info.name, d, json!({"cancel_at": plan}))); }
                     if let Err(m) = crate::xtree::check_summaries(&t) { res.violation("stale-summary-after-resume", m, case_json("cancel", &info.name, d, json!({"cancel_at": plan}))); }
                 }
             }
@@ -331,6 +335,44 @@ fn part_cancellation(ctx: &Ctx, info: &LangInfo, big: &[Vec<u8>], other_doc: &[u
             }
             if res.too_many() || ctx.out_of_time() { return; }
         }
+        // cancel + reset after ERRONEOUS documents: a prefix of the document cut at each of a run of consecutive lengths ends
+        // in an open error, where several stack versions are alive and one of them may already have been accepted when the
+        // callback (consulted every 100 parser operations, hence the sweep over lengths) cancels; after reset() another
+        // erroneous document must parse like new
+        if d.len() > 200 {
+            let mut bad_other = other_doc.to_vec();
+            bad_other.extend_from_slice(b" ) ) ( ( ");
+            bad_other.extend_from_slice(&other_doc[..other_doc.len().min(12)]);
+            let bad_ref = reference(info, &bad_other);
+            let cuts = if ctx.mini() { 8 } else if ctx.quick() { 48 } else { 256 };
+            for cut in (d.len() / 2..d.len() / 2 + cuts).filter(|&c| c < d.len()) {
+                *idx += 1;
+                if !ctx.mine(*idx) { continue; }
+                let a = &d[..cut];
+                let mut p0 = Parser::new();
+                p0.set_language(&info.language).unwrap();
+                let (_, k, _) = parse_cancelling(&mut p0, a, None, &[]);
+                for at in 1..=k {
+                    crate::case!("{}", case_json("cancel-reset-erroneous", &info.name, d, json!({"cut": cut, "cancel_at": [at]})));
+                    let mut p = Parser::new();
+                    p.set_language(&info.language).unwrap();
+                    let mut calls = 0u64;
+                    let mut cb = |_: &tree_sitter::ParseState| { calls += 1; if calls == at { ControlFlow::Break(()) } else { ControlFlow::Continue(()) } };
+                    let opts = ParseOptions::new().progress_callback(&mut cb);
+                    let len = a.len();
+                    let r = p.parse_with_options(&mut |i, _| if i < len { &a[i..] } else { &a[len..] }, None, Some(opts));
+                    res.transitions += 1;
+                    if r.is_none() {
+                        res.nontrivial += 1;
+                        p.reset();
+                        let t2 = p.parse(&bad_other, None).unwrap();
+                        if let Some(m) = same(&XTree::build(&t2), &bad_ref) { res.violation("reset-after-cancel-not-clean", format!("prefix of {} bytes, cancel at {}, reset, parse another erroneous document: {}", cut, at, m), case_json("cancel-reset-erroneous", &info.name, d, json!({"cut": cut, "cancel_at": [at]}))); }
+                    }
+                }
+                res.states += 1;
+                if res.too_many() || ctx.out_of_time() { return; }
+            }
+        }
         // re-parses with an edited old tree: cancellation must not change the incremental result
         let mut pbase = Parser::new();
         pbase.set_language(&info.language).unwrap();
@@ -356,7 +398,7 @@ fn part_cancellation(ctx: &Ctx, info: &LangInfo, big: &[Vec<u8>], other_doc: &[u
                 res.states += 1;
                 match t {
                     None => res.violation("resume-never-finishes", format!("incremental, cancel at {}", i), case_json("cancel-incremental", &info.name, d, json!({"edit": e.to_json(), "cancel_at": [i]}))),
-                    Some(t) => if let Some(m) = same(&XTree::build(&t), &unc) { res.violation("cancel-resume-changes-incremental-tree", format!("cancel at {}: {}", i, m), case_json("cancel-incremental", &info.name, d, json!({"edit": e.to_json(), "cancel_at": [i]}))); }
+                    Some(t) => if let Some(m) = same(&XTree::build(&t), &unc) { res.violation(if t.root_node().has_error() && unc.root_has_error() { "cancel-resume-changes-error-recovery-shape" } else { "cancel-resume-changes-incremental-tree" }, format!("cancel at {}: {}", i, m), case_json("cancel-incremental", &info.name, d, json!({"edit": e.to_json(), "cancel_at": [i]}))); }
                 }
                 if cancels > 0 { res.nontrivial += 1; }
             }
@@ -429,6 +471,11 @@ pub fn big_docs(name: &str) -> Vec<Vec<u8>> {
         "pstring" => vec!["%(a(b)#{x %[y]}c) w 1 (z)\n".repeat(50)],
         "lookfar" => vec!["a-bc-a! bc a-bc bc-a-bc-a-bc !\n".repeat(40)],
         "resv" => vec!["var a = { if: b.if, c: (d), };\nif (a.if) { a.b; }\n".repeat(30)],
+        "colm" => vec!["ab ! cd @ (ef ! @)\n".repeat(40)],
+        "modal" => vec!["a [b ! c] 1 ! [d]\n".repeat(40)],
+        "docol" => vec!["a = do b\n       c\nd\n".repeat(30)],
+        // (the second document is erroneous throughout: cancellation while several stack versions are alive)
+        "nlctx" => vec!["x ab;\ny\ncd;\nz a ef;\n".repeat(40), "nlctx\n".repeat(40)],
         _ => vec![format!("{}\n", name).repeat(40)],
     };
     v.into_iter().map(|s| s.into_bytes()).collect()
